@@ -1,7 +1,9 @@
 --------------------------- MODULE YangSchemaTrace ---------------------------
 (* Trace validation (code -> model).  The harness compiles module sets with the
    real compiler and logs one event per module set:
-     [id, judge, mods, feats, ok, dump, filtered: <<[f, ok, dump]>>]
+     [id, judge, mods, feats, fsrc, ok, dump, filtered: <<[f, ok, dump]>>]
+   (fsrc = the feature source the compilation was given: checkers, combinators, compile.Config; the enabled set is
+   what YangSchema!SrcEnabled makes of it)
    dump is the canonical dump of the unfiltered compile, filtered the dumps of
    the same module set compiled under schema filters.  Each event is one step:
      * every filtered dump must equal PruneSeq(dump, f), attribute by attribute,
@@ -66,7 +68,7 @@ FilterFails(e) ==
      : i \in {j \in 1..Len(e.filtered) : e.filtered[j].ok /\ PruneSeq(e.dump, e.filtered[j].f) # e.filtered[j].dump}}
 SchemaFails(e) ==
   IF ~e.judge THEN {}
-  ELSE LET a == Analyse(e.mods, {<<e.feats[i][1], e.feats[i][2]>> : i \in 1..Len(e.feats)})
+  ELSE LET a == AnalyseSrc(e.mods, e.fsrc)
            got == IF e.ok THEN "ok" ELSE "err"
        IN IF a.verdict = "unjudged" THEN {}
           \* "open": whether it compiles is not judged; if it does, the schema is, but for the attributes in a.opens
@@ -74,7 +76,7 @@ SchemaFails(e) ==
           ELSE IF ~e.ok THEN {}
           ELSE LET d == DiffSet(MaskTree(SpecBags(a.schema), <<>>, a.opens), MaskTree(ToSet(e.dump), <<>>, a.opens), "")
                IN IF d = NoDiff THEN {} ELSE {[id |-> e.id, site |-> "schema", filter |-> "", attr |-> d.attr, kind |-> d.kind, path |-> d.path]}
-Unjudged(e) == e.judge /\ LET v == Analyse(e.mods, {<<e.feats[i][1], e.feats[i][2]>> : i \in 1..Len(e.feats)}).verdict
+Unjudged(e) == e.judge /\ LET v == AnalyseSrc(e.mods, e.fsrc).verdict
                             IN v = "unjudged" \/ (v = "open" /\ ~e.ok)
 
 TInit == l = 1 /\ nfail = 0 /\ nchecks = 0
